@@ -13,7 +13,8 @@ ASSUMPTIONS = [
     'model variants (remove_samples de-duplication, same_scaling full comparison: behavioural probe; accumulated-offset bookkeeping and '
     'affine-map comparison in concatenate: presence of DataSet.get_scaling_offset / DataSet._same_affine_scaling) are selected per run',
     'remove_labels: the rnd.sample index list is read off the implementation (labels that became -1) and validated by the model; '
-    'split_one_vs_others (float labels) is judged by implementation-side predicates only and its results are not kept',
+    'split_one_vs_others: the CPython set order of the labels is read off the implementation and validated by the model; its result sets (rational labels) '
+    'are compared with the model but not kept in the store; calls on float-dtype label arrays (list-index TypeError) are judged by the predicates only',
     'non-integer labels (only produced by split_one_vs_others) and labels < -1 (rejected by the constructor) are outside the envelope',
     'object identity: the model is a function of values; every ndarray handed to a constructor or an operation is compared with a snapshot after '
     'every operation (argument-mutated) and all live data sets are re-snapshotted after every operation (operation-changes-other-dataset); '
@@ -864,10 +865,18 @@ def impl_run(case):
                     what = [nm for nm, a, b in zip(('min', 'max', 'length', 'labels', 'number_labels', 'has_labelless', 'is_empty'), out, want) if a != b]
                     ent['viol'].append(dict(kind='getter-wrong', sig=dict(getter=','.join(what)), why='getters return %r, the data say %r' % (out, want)))
         elif k == 'one_vs_others':
-            ent['obs'] = None                      # not in the model (float labels): implementation-side predicates only
+            # CPython set order of the labels (an input of the model, validated there); float label dtype: list index TypeError (not modelled)
+            try:
+                ent['order'] = [int(l) for l in H[h].get_labels()]
+            except Exception:
+                ent['order'] = []
+            ent['obs'] = [1]
+            if raised and exc[0] == 'TypeError':
+                ent['obs'] = None
             if not raised:
-                labs = [int(l) for l in H[h].get_labels()]
+                labs = ent['order']
                 so = [snap(o) for o in out]
+                ent['obs'] = [0, [[s2[0], [float(l) for l in s2[1]]] for s2 in so]]
                 for j, s2 in enumerate(so):
                     if s2[0] != sb[0]:
                         ent['viol'].append(dict(kind='multiset-changed', sig=dict(op=k), why='split_one_vs_others set %d does not hold the samples of its source in order' % j))
@@ -937,7 +946,9 @@ def model_ops(trace):
         elif k == 'remove_labels':
             m = [15, h, float(op[2]), [int(v) for v in ent.get('idx', [])]]
         elif k == 'one_vs_others':
-            continue
+            if ent.get('obs') is None:
+                continue
+            m = [17, h, [int(v) for v in ent.get('order', [])]]
         else:
             m = [OPN[k], h]
         mops.append(m); owner.append(i)
@@ -1173,7 +1184,11 @@ def judge(chk, cases, impl, variant):
             k = ent['op'][0]
             mob = ob
             if k == 'one_vs_others':
-                continue
+                if isinstance(ob, list) and len(ob) == 3 and ob[2] != 1:
+                    chk.violation('corr:C18/one_vs_others', 'label-order-inadmissible', {}, dict(base, ops=[e['op'] for e in tr[:ow + 1]]),
+                                  dict(step=ow, order=ent.get('order'), note='get_labels() is not an enumeration of the distinct labels'), failing_input=False)
+                    break
+                mob = ob[:len(ent['obs'])] if isinstance(ob, list) else ob
             if k == 'remove_labels' and isinstance(ob, list) and len(ob) == 3:
                 mob = ob[:2]
                 if ob[2] != 1 and ob[0] == 0:
